@@ -24,6 +24,8 @@ for d in sorted(glob.glob(V + '/seeded/*/meta.json')):
         change = change[:137] + '...'
     rows.append(f"| {name} | {m['breaks_property']} | {change} | {'; '.join(res) or 'n/a'} | {hist} |")
 s10 = open(V + '/tools/design_s10.md').read().replace('SEED_TABLE_PLACEHOLDER', '\n'.join(rows))
+nfix = len([l for l in open(V + '/known_findings.txt') if l.startswith('fixed:')])
+s10 = re.sub(r'Defects repaired in jiff \(\d+ `fix:` commits', f'Defects repaired in jiff ({nfix} `fix:` commits', s10)
 d = open(V + '/DESIGN.md').read()
 marker = '\n--------------------------------------------------------------------------\n\n## 10. Build-phase record'
 i = d.find(marker)
